@@ -551,3 +551,5 @@ def run(ctx):
     r01_8(ctx)
     r01_9(ctx, layers)
     r01_11(ctx)
+    from .c02 import r02_8
+    r02_8(ctx, layers, rid="R01.12")
